@@ -207,6 +207,8 @@ class Run:
         for x in s['samples'][:3]:
             if len(self.samples) < 12:
                 self.samples.append(dict(job=name, case=x))
+        for a in s.get('spec_actions', []):
+            self.actions[a] = self.actions.get(a, 0) + 1
         self.jobs.append(dict(job=name, kind='replay', family=family, profile=s.get('profile'), total=s['total'], ok=s['ok'],
                               skipped=s['skipped'], distinct=s['distinct'], distinct_nontrivial=s['distinct_nontrivial'],
                               violations=s['n_violations'], wall_s=round(s['wall'], 1)))
